@@ -1,0 +1,27 @@
+//go:build verif
+
+// Contracts for package stateful, read by /verif/engine (govc). Comments only.
+package stateful
+
+// ---------------------------------------------------------------- expr.go (C06)
+
+// NewFunctions builds the table of (stateful) built-in function instances: assumed to return a
+// map that did not exist before.
+//@ func NewFunctions
+//@   trusted
+//@   modifies nothing
+//@   ensures result != nil && fresh(result)
+
+//@ func CreateExecutionState
+//@   props C06
+//@   modifies nothing
+//@   ensures result.Funcs != nil && fresh(result.Funcs)
+
+// Per-group copies of an expression get their own execution state (the stateful function
+// instances); only the compiled node evaluator is shared.
+//@ func (*expression).CopyReset
+//@   props C06
+//@   modifies nothing
+//@   ensures typeis(result, *expression) && as(result, *expression) != nil && fresh(as(result, *expression))
+//@   ensures as(result, *expression).nodeEvaluator == se.nodeEvaluator
+//@   ensures fresh(as(result, *expression).executionState.Funcs) && as(result, *expression).executionState.Funcs != se.executionState.Funcs
